@@ -402,7 +402,6 @@ func VerifH_C09_ServerQuery() {
 	var nresults uint
 	if hasLimit {
 		nresults = vrt.Uint("nresults")
-		vrt.Assume(nresults <= 1<<62)
 		doc.Limit = &limit{NResults: nresults}
 	}
 	// requested data
@@ -460,7 +459,13 @@ func VerifH_C09_ServerQuery() {
 		}
 	}
 	if hasLimit {
-		vrt.Assert(q.Limit > 0 && uint(q.Limit) == nresults, "backend: result limit")
+		// a limit beyond the largest int is the largest int, not zero or "no limit"
+		const maxInt = int(^uint(0) >> 1)
+		if nresults > uint(maxInt) {
+			vrt.Assert(q.Limit == maxInt, "backend: a result limit beyond the largest int stays a (huge) limit")
+		} else {
+			vrt.Assert(q.Limit > 0 && uint(q.Limit) == nresults, "backend: result limit")
+		}
 	} else {
 		vrt.Assert(q.Limit <= 0, "backend: no limit")
 	}
